@@ -15,12 +15,17 @@ struct ModRec {
     int thread;
     uint32_t id;
     uint64_t call, ret;
+    int throw_at;  // 0: functor does not throw; 1 / 2: it throws in its first / second application
+};
+struct Boom {
+    uint32_t id;
 };
 struct Act {
     char kind;  // M modify, R read
     int form;   // R: 0 lock_shared 1 try 2 try_for 3 try_until
     int hold;
     uint32_t id;
+    int throw_at = 0;
 };
 
 int main(int argc, char** argv)
@@ -38,7 +43,7 @@ int main(int argc, char** argv)
             std::vector<Act> sc;
             int n = static_cast<int>(rng.range(1, 3));
             for (int i = 0; i < n && id <= 8; i++) {
-                sc.push_back(Act{'M', 0, static_cast<int>(rng.below(3)), id++});
+                sc.push_back(Act{'M', 0, static_cast<int>(rng.below(3)), id++, rng.chance(15) ? static_cast<int>(rng.range(1, 2)) : 0});
                 if (rng.chance(25)) sc.push_back(Act{'R', static_cast<int>(rng.below(4)), static_cast<int>(rng.below(3)), 0});
             }
             scripts.push_back(sc);
@@ -53,7 +58,7 @@ int main(int argc, char** argv)
         for (size_t t = 0; t < scripts.size(); t++) {
             if (t) pj += ",";
             pj += vrf::jarr(scripts[t].begin(), scripts[t].end(), [](const Act& a) {
-                return std::string("{\"k\":\"") + a.kind + "\",\"form\":" + std::to_string(a.form) + ",\"hold\":" + std::to_string(a.hold) + ",\"id\":" + std::to_string(a.id) + "}";
+                return std::string("{\"k\":\"") + a.kind + "\",\"form\":" + std::to_string(a.form) + ",\"hold\":" + std::to_string(a.hold) + ",\"id\":" + std::to_string(a.id) + ",\"throw_at\":" + std::to_string(a.throw_at) + "}";
             });
         }
         pj += "]}";
@@ -66,15 +71,24 @@ int main(int argc, char** argv)
             R.spawn([&, t] {
                 for (const Act& a : scripts[t]) {
                     if (a.kind == 'M') {
-                        ModRec m{static_cast<int>(t), a.id, vrf::now(), 0};
-                        lr.modify([&](Cell& c) {
-                            Win w(c, true);
-                            vrf::tl_vt_label = static_cast<int>(a.id);
-                            c.check("functor");
-                            for (int i = 0; i < a.hold; i++) vrf::user_point();
-                            c.append_raw(a.id);
-                            functor_calls.fetch_add(1, std::memory_order_relaxed);
-                        });
+                        ModRec m{static_cast<int>(t), a.id, vrf::now(), 0, a.throw_at};
+                        int invocation = 0;
+                        bool caught = false;
+                        try {
+                            lr.modify([&](Cell& c) {
+                                Win w(c, true);
+                                vrf::tl_vt_label = static_cast<int>(a.id);
+                                c.check("functor");
+                                for (int i = 0; i < a.hold; i++) vrf::user_point();
+                                if (++invocation == a.throw_at) throw Boom{a.id};  // 1st: rolled back, 2nd: completed from the other copy
+                                c.append_raw(a.id);
+                                functor_calls.fetch_add(1, std::memory_order_relaxed);
+                            });
+                        }
+                        catch (const Boom&) {
+                            caught = true;
+                        }
+                        if (caught != (a.throw_at != 0)) vrf::violation("oracle:functor_exception_not_propagated", "{\"id\":" + std::to_string(a.id) + "}");
                         m.ret = vrf::now();
                         mods[t].push_back(m);
                     } else {
@@ -130,6 +144,16 @@ int main(int argc, char** argv)
         for (size_t i = 0; i < fa.size(); i++) {
             if (pos.count(fa[i])) vrf::violation("oracle:update_applied_twice", "{\"final\":" + vrf::jnums(fa) + "}");
             pos[fa[i]] = i;
+        }
+        {
+            // a modify whose functor threw in its first application is rolled back; every other one takes effect
+            std::vector<const ModRec*> eff;
+            for (auto* m : allm) {
+                if (m->throw_at == 1) {
+                    if (pos.count(m->id)) vrf::violation("oracle:rolled_back_modification_visible", "{\"id\":" + std::to_string(m->id) + ",\"final\":" + vrf::jnums(fa) + "}");
+                } else eff.push_back(m);
+            }
+            allm = eff;
         }
         if (fa.size() != allm.size()) vrf::violation("oracle:lost_update", "{\"final\":" + vrf::jnums(fa) + ",\"modifies\":" + std::to_string(allm.size()) + "}");
         for (auto* m : allm)
